@@ -1,4 +1,5 @@
 import Eliot.Properties.C09
+import Eliot.Properties.C09Flat
 #print axioms PM.Tree.step
 #print axioms PM.Tree.stepC
 #print axioms PM.Task.add_step
@@ -10,3 +11,11 @@ import Eliot.Properties.C09
 #print axioms PM.C09.never_early
 #print axioms PM.C09.yield_exactly_once
 #print axioms PM.C09.reconstruct
+#print axioms PM.upward_seg
+#print axioms PM.add_refines
+#print axioms PM.C09Flat.flat_refines_trie
+#print axioms PM.C09Flat.flat_sequence_refines_trie
+#print axioms PM.C09Flat.flat_root_and_complete
+#print axioms PM.C09Flat.spec_stream_in_domain
+#print axioms PM.C09Flat.flat_single_message_task
+#print axioms PM.C09Flat.flat_follows_spec
